@@ -46,6 +46,8 @@ func TestCheck(t *testing.T) {
 		hist.Job{Name: "file/failover-fork", Cfg: hist.Config{PageSize: 512, Start: 3, R2Starts: "absent", BackupKind: "file", Alphabet: failover, Prelude: []string{"sync", "part:R1", "tx:a:t1"}}, Depth: 4, Budget: 60 * time.Second},
 		hist.Job{Name: "lfsc/wal-2db", Cfg: hist.Config{PageSize: 4096, Start: 2, WAL: true, SecondDB: true, R2Starts: "absent", BackupKind: "lfsc", Alphabet: append([]string{"tx:ck"}, core...)}, Depth: 2, Budget: 60 * time.Second},
 	)
+	jobs = append(jobs,
+		hist.Job{Name: "lfsc-lag/core", Cfg: hist.Config{PageSize: 512, Start: 3, R2Starts: "absent", BackupKind: "lfsc-lag", Alphabet: []string{"tx:t1", "tx:g1", "sync", "svc:wipe", "svc:back", "retain", "drop", "create", "restartP"}}, Depth: 4, Budget: 60 * time.Second})
 	loop := []string{"tx:t1", "svc:back", "svc:ahead", "svc:fork", "svc:wipe", "arm:wt-before", "arm:wt-after", "arm:wt-partial", "arm:fs", "retain", "drop", "create"}
 	for _, kind := range []string{"file", "lfsc"} {
 		jobs = append(jobs,
